@@ -363,32 +363,31 @@ impl<'a> Session<'a> {
                 self.sync(true)
             }
             Cmd::State => {
+                let mark = self.eng.log.len();
                 self.eng.send(".state");
                 if !self.sync(false) {
                     return false;
                 }
-                // the board dump goes to stderr; its first non-empty line is the FEN
+                // the board dump goes to stderr, a different pipe: only lines logged after the command
+                // was sent count, and the driver waits for them (order between the pipes is not defined)
                 let want = self.cur.fen();
-                let mut got: Option<String> = None;
                 let looks = |l: &str| l.trim().split(' ').count() == 6 && l.contains('/');
-                for l in self.eng.log.iter().rev().take(80) {
-                    if let Some(t) = l.strip_prefix("! ") {
-                        if looks(t) {
-                            got = Some(t.trim().to_string());
-                            break;
-                        }
-                    }
-                }
-                if got.is_none() {
-                    let t0 = std::time::Instant::now();
-                    while t0.elapsed() < Duration::from_secs(5) && got.is_none() {
-                        if let Some((src, l)) = self.eng.next(Duration::from_millis(100)) {
-                            match src {
-                                Src::Err if looks(&l) => got = Some(l.trim().to_string()),
-                                Src::Out => self.on_out(&l),
-                                _ => {}
+                let mut got: Option<String> = None;
+                let t0 = std::time::Instant::now();
+                loop {
+                    for l in self.eng.log[mark..].iter() {
+                        if let Some(t) = l.strip_prefix("! ") {
+                            if looks(t) {
+                                got = Some(t.trim().to_string());
+                                break;
                             }
                         }
+                    }
+                    if got.is_some() || t0.elapsed() > Duration::from_secs(10) {
+                        break;
+                    }
+                    if let Some((Src::Out, l)) = self.eng.next(Duration::from_millis(50)) {
+                        self.on_out(&l);
                     }
                 }
                 self.out.state_checks += 1;
